@@ -1,15 +1,39 @@
 #!/usr/bin/env python3
-"""Run every registered quick check against every seeded change (on a scratch copy of /repo/lib, never /repo itself);
-print which checks raise an alarm.  usage: seed_matrix.py [seed ...] [--checks C01,C10]"""
-import os, sys, json, subprocess, tempfile, shutil, concurrent.futures as cf
+"""Run the registered quick checks against the seeded changes (on scratch copies of /repo/lib, never /repo itself) and print
+which checks raise an alarm.  Only the checks whose contracts read a touched file are run (plus the seed's own property).
+usage: seed_matrix.py [seed ...] [--checks=C01,C10] [--all-checks] [--par=3]"""
+import os, sys, json, subprocess, tempfile, shutil, re, concurrent.futures as cf
 V = os.path.dirname(os.path.dirname(os.path.abspath(__file__)))
 man = json.load(open(os.path.join(V, 'MANIFEST.json')))
-checks = [c['property_id'] for c in man['checks']]
+registered = [c['property_id'] for c in man['checks']]
+RELEVANT = {
+    'emitter.py': ['C02', 'C05', 'C12', 'C15', 'C11', 'C19'], 'parser.py': ['C03', 'C09', 'C11', 'C12'], 'reader.py': ['C07', 'C09', 'C03', 'C19'],
+    'constructor.py': ['C01', 'C04', 'C10', 'C13', 'C11', 'C14', 'C17'], 'composer.py': ['C13', 'C03', 'C11'], 'resolver.py': ['C08', 'C10', 'C11', 'C19'],
+    'representer.py': ['C10', 'C11', 'C16', 'C19'], 'serializer.py': ['C11', 'C16'], 'scanner.py': ['C03', 'C09', 'C18', 'C20', 'C11'],
+    '__init__.py': ['C01', 'C04', 'C10', 'C11', 'C19'], 'loader.py': ['C01', 'C04', 'C10'], 'dumper.py': ['C10'], 'cyaml.py': ['C01', 'C04', 'C10'],
+}
 args = [a for a in sys.argv[1:] if not a.startswith('--')]
+only, par, allc = None, 3, False
 for a in sys.argv[1:]:
     if a.startswith('--checks='):
-        checks = a.split('=', 1)[1].split(',')
+        only = a.split('=', 1)[1].split(',')
+    if a.startswith('--par='):
+        par = int(a.split('=')[1])
+    if a == '--all-checks':
+        allc = True
 seeds = args or sorted(os.listdir(os.path.join(V, 'seeded')))
+
+
+def checks_for(seed):
+    if only:
+        return only
+    if allc:
+        return registered
+    files = re.findall(r'^\+\+\+ b/lib/yaml/(\S+)', open(os.path.join(V, 'seeded', seed, 'patch.diff')).read(), re.M)
+    cs = {seed[:3]}
+    for f in files:
+        cs.update(RELEVANT.get(f, registered))
+    return [c for c in registered if c in cs]
 
 
 def one(seed):
@@ -22,24 +46,26 @@ def one(seed):
         p = subprocess.run(['patch', '-p1', '-s', '-i', os.path.join(V, 'seeded', seed, 'patch.diff')], cwd=d, capture_output=True, text=True)
         if p.returncode:
             return seed, {'error': p.stdout + p.stderr}
-        env = dict(os.environ, PYVC_REPO=d, PYVC_EVIDENCE_DIR=d + '/evidence')
+        env = dict(os.environ, PYVC_REPO=d, PYVC_EVIDENCE_DIR=d + '/evidence', PYVC_REPLAY_DIR=d + '/replays')
         res = {}
-        for c in checks:
-            r = subprocess.run([os.path.join(V, 'check'), c, '--tier', 'quick', '--jobs', '4'], cwd=V, env=env, capture_output=True, text=True)
+        for c in checks_for(seed):
+            r = subprocess.run([os.path.join(V, 'check'), c, '--tier', 'quick', '--jobs', '6'], cwd=V, env=env, capture_output=True, text=True)
             vio = [l for l in r.stdout.splitlines() if l.startswith('VIOLATION')]
-            res[c] = (r.returncode, len(vio), (vio[0][:230] if vio else ''))
+            res[c] = (r.returncode, len(vio), [re.sub(r'^VIOLATION property=\S+ replay=\S+ ', '', v)[:200] for v in vio[:3]])
         return seed, res
     finally:
         shutil.rmtree(d, ignore_errors=True)
 
 
-with cf.ThreadPoolExecutor(4) as ex:
-    for seed, res in ex.map(one, seeds):
-        if 'error' in res:
-            print(seed, 'PATCH ERROR', res['error']); continue
-        hits = {c: v for c, v in res.items() if v[0] != 0}
-        own = seed[:3]
-        status = 'CAUGHT' if hits else 'missed'
-        print('%-6s %s  by=%s  own-check(%s)=%s' % (seed, status, sorted(hits), own, res.get(own, ('n/a',))[0]))
-        for c, v in hits.items():
-            print('        %s rc=%d %s' % (c, v[0], v[2]))
+if __name__ == '__main__':
+    with cf.ThreadPoolExecutor(par) as ex:
+        for seed, res in ex.map(one, seeds):
+            if 'error' in res:
+                print(seed, 'PATCH ERROR', res['error']); continue
+            hits = {c: v for c, v in res.items() if v[0] == 1}
+            errs = {c: v for c, v in res.items() if v[0] not in (0, 1)}
+            own = seed[:3]
+            print('%-8s %s  by=%s  ran=%s%s' % (seed, 'CAUGHT' if hits else 'missed', sorted(hits), sorted(res), ('  ENGINE-ERRORS=%s' % sorted(errs)) if errs else ''), flush=True)
+            for c, v in hits.items():
+                for line in v[2]:
+                    print('        %s %s' % (c, line), flush=True)
